@@ -22,10 +22,11 @@ A failing variant is classified: if its output equals R2 with the edges of node
 `num_nodes-1` left out instead, and that node is not the oldest root, the key is
 `ignores_last_node_instead_of_oldest_root` (DESIGN F14); anything else gets another key.
 
-Calibration on the unchanged tree, canonical numbering (seeds 1..5, 4 x 220 cases): worst
-|posterior - R1| = 2e-15, |posterior - R2| = 3e-14, renumbering differences (with the fix
-proposed in fixes_proposed/C38_oldest_root.patch applied) <= 4e-15 relative.  Tolerances:
-1e-9 (abs on probabilities, rel on times and likelihood).
+Calibration (quick tier, seeds 1..5, 1 000-1 400 cases each): on the unchanged tree, variants
+with the oldest root last: worst |posterior - R1| = 4.4e-15, |posterior - R2| = 4.2e-15; re-stated
+recursion vs ignore_oldest_root=False run 5.2e-15.  With fixes_proposed/C38_oldest_root.patch
+applied (700 cases, every variant): no bucket, worst renumbering difference 2.1e-15 relative.
+Tolerance everywhere: 1e-9 (abs on probabilities, rel on times and likelihood).
 """
 
 import numpy as np
@@ -266,7 +267,10 @@ def check(case, ctx):
             if not d0 <= TOL:
                 ctx.discard("re-stated outside pass does not reproduce the ignore_oldest_root=False run (not C38)")
                 return []
-            option_matters = float(np.nanmax(np.abs(P0[nonsample] - P[nonsample]))) > 1e-6
+            # judged on the references, not on the code under test: does leaving out the oldest
+            # root's messages change some posterior by > 1e-6 ?
+            ref_ign = OR.reference_posteriors(ts_v, li, T, eps, mu, ignore_node=int(mapping[root]))
+            option_matters = max(float(np.abs(ref_ign[u] - ref0[u]).max()) for u in ref0) > 1e-6
             if option_matters:
                 ctx.label("option_changes_posterior")
 
